@@ -267,16 +267,24 @@ PROPS.update({
         "level": "proof",
         "audit_imports": ["SpecVerif.Props.C18", "SpecVerif.Props.C12", "SpecVerif.TiesMpx"],
         "lean_targets": ["SpecVerif.Props.C18", "SpecVerif.Props.C12", "SpecVerif.TiesMpx"],
-        "go_cmds": ["poolscen", "poolscen.race"],
+        "go_cmds": ["poolscen", "poolscen.race", "mpxclient.race", "mpxscen.race", "mpxfault.race", "rpcscen.race"],
         "theorems": ["SpecVerif.C18." + t for t in ["inv_reachable", "acquired_is_clean", "never_shared", "unreset_fields_are_stateless", "unrepaired_shares_object"]] + ["SpecVerif.C12.reset_clean"],
         "ties": ev("pool_writerState_reset", "pool_writerState_init", "pool_releaseWriterState", "pool_writer_reset", "pool_stack_reset", "pool_listStack_reset",
                    "pool_messageStack_reset", "pool_mpx_channelState_reset", "pool_mpx_releaseChannelState2", "pool_mpx_releaseChannelHandler",
                    "pool_rpc_channelState_reset", "pool_rpc_releaseState", "pool_rpc_requestState_reset", "pool_rpc_releaseRequestState",
                    "pool_rpc_serverChannelState_reset", "pool_rpc_releaseServerState"),
         "streams": [scen("pool", "{bin}/poolscen", "c18", "{seed}", "{tier}"),
-                    scen("pool-race", "{bin}/poolscen.race", "c18", "{seed}", "quick", tiers=["thorough"], timeout=1500)],
+                    scen("pool-race", "{bin}/poolscen.race", "c18", "{seed}", "quick", tiers=["thorough"], timeout=1500),
+                    # the scenario workloads of the mpx / rpc properties under the race detector: only the
+                    # detector's verdict is judged (race_only)
+                    scen("client-race", "{bin}/mpxclient.race", "scen", "{seed}", "quick", tiers=["thorough"], timeout=1500, race_only=True),
+                    scen("c03-race", "{bin}/mpxscen.race", "c03", "{seed}", "quick", tiers=["thorough"], timeout=1500, race_only=True),
+                    scen("c06-race", "{bin}/mpxscen.race", "c06", "{seed}", "quick", "skip=5", tiers=["thorough"], timeout=1500, race_only=True),
+                    scen("c20-race", "{bin}/mpxfault.race", "c20", "{seed}", "quick", tiers=["thorough"], timeout=1500, race_only=True),
+                    scen("c09-race", "{bin}/mpxfault.race", "c09", "{seed}", "quick", tiers=["thorough"], timeout=1500, race_only=True),
+                    scen("c04-race", "{bin}/rpcscen.race", "c04", "{seed}", "quick", tiers=["thorough"], timeout=1500, race_only=True)],
         "flag": MPX_FLAG,
-        "rule": "one evaluation = one run of 120..800 seeded write/read programs (valid, failing midway in three ways, truncated/abandoned; seven writer variants: owned, reused with Reset, pooled message/list/value writers, self-releasing) on 2..16 goroutines together with mpx echo and rpc echo traffic, every result compared with the same program run alone; a registry of writer objects in use catches an object handed out twice; thorough tier: the same under the race detector (a data race is a VIOL line and exit 66)",
+        "rule": "one evaluation = one run of 120..800 seeded write/read programs (valid, failing midway in three ways, truncated/abandoned; seven writer variants: owned, reused with Reset, pooled message/list/value writers, self-releasing) on 2..16 goroutines together with mpx echo and rpc echo traffic, every result compared with the same program run alone; a registry of writer objects in use catches an object handed out twice; thorough tier: the same under the race detector (a data race is a VIOL line and exit 66), and the scenario workloads of C03/C04/C06/C09/C19/C20 under the race detector (only the detector's verdict is judged there)",
         "trusted": ["the Go race detector for the race-freedom clause (no memory-model theorem); sync.Pool semantics as modelled (Pool/Model.lean)",
                     "the extractor computes, for every pooled type, the fields that neither reset() nor the pool's release function assigns"],
         "assumptions": ["an object is released only by its owner and not used afterwards (API contract; the library's own releases are tied by event sequences)"],
